@@ -134,7 +134,18 @@ def gen_list(t, flavour=None, min_lines=3, max_lines=40):
     if not pool:
         pool = ["password1"]
     n = t.between(min_lines, max_lines)
-    pws = [pool[t.draw(len(pool))] for _ in range(n)]
+    if flavour.get("large"):
+        # a list of some hundred to a few thousand lines over a vocabulary of 40-300 passwords with a skewed
+        # (Zipf-like) repetition: many distinct terminals, wide tie groups of once-seen values, characters outside a small
+        # OMEN alphabet, counts far above the multi-word threshold
+        for _ in range(t.between(40, 300)):
+            pw = gen_password(t, flavour)
+            if pw and len(pw) <= (23 if flavour.get("long") else 20) and representable(pw, enc):
+                pool.append(pw)
+        n = t.between(300, 2500)
+        pws = [pool[min(t.draw(len(pool)), t.draw(len(pool)), t.draw(len(pool)))] for _ in range(n)]
+    else:
+        pws = [pool[t.draw(len(pool))] for _ in range(n)]
     if t.chance(1, 2):
         # make some base words frequent enough for multi-word detection
         w = t.choice(WORDS)
